@@ -2,14 +2,14 @@
 # usage: try_mutant.sh <patch.diff> <ID> [tier] [extra args] — apply the change to a scratch worktree of /repo's
 # HEAD (never to /repo itself), run the check against it with VERIF_REPO, and clean up.
 P="$1"; ID="$2"; TIER="${3:-quick}"; shift 3 2>/dev/null
-WT=/tmp/verif-mutwt
+WT=${MUT_WT:-/tmp/verif-mutwt}; LOG=${MUT_LOG:-/tmp/mutant.log}
 if [ ! -d "$WT" ]; then git -C /repo worktree add --detach "$WT" HEAD >/dev/null 2>&1 || { echo "cannot create worktree"; exit 3; }; fi
 git -C "$WT" checkout -q --detach main 2>/dev/null; git -C "$WT" checkout -q -- . ; git -C "$WT" clean -qfd
 git -C "$WT" apply "$P" 2>/dev/null || { echo "patch does not apply cleanly"; exit 3; }
-VERIF_REPO="$WT" /verif/bin/check "$ID" "$TIER" "$@" > /tmp/mutant.log 2>&1
+VERIF_REPO="$WT" /verif/bin/check "$ID" "$TIER" "$@" > "$LOG" 2>&1
 rc=$?
 git -C "$WT" checkout -q -- . ; git -C "$WT" clean -qfd
-grep -a -E "^(VIOLATION|KNOWN-FINDING|ENGINE)" /tmp/mutant.log | head -5
-tail -1 /tmp/mutant.log | cut -c1-200
+grep -a -E "^(VIOLATION|KNOWN-FINDING|ENGINE)" "$LOG" | head -5
+tail -1 "$LOG" | cut -c1-200
 echo "rc=$rc"
 exit $rc
